@@ -3,6 +3,7 @@ W-SIZER: direct calls of the two order sizers through a real broker/portfolio
 (so equity and the fee model are the real ones) with a harness-owned price
 handler. Oracles for C10 (long-only) and C11 (long/short) in exact rationals.
 """
+import json
 import math
 import random
 import time
@@ -44,11 +45,34 @@ def make_broker(case):
     t = bw.ts('2021-03-03 15:00:00')
     book = PriceBook(dict(case['prices']))
     fee = case['fee']
-    fm = ZeroFeeModel() if fee[0] == 'zero' else PercentFeeModel(commission_pct=fee[1], tax_pct=fee[2])
+    late = fee[0] != 'zero' and (hash_of(case) % 3 == 0)
+    if fee[0] == 'zero':
+        fm = ZeroFeeModel()
+    elif late:
+        fm = PercentFeeModel(commission_pct=0.04, tax_pct=0.01)      # provisional rates, revised below on the same object
+    else:
+        fm = PercentFeeModel(commission_pct=fee[1], tax_pct=fee[2])
     broker = SimulatedBroker(t, SimulatedExchange(t), book, initial_funds=case['equity'], fee_model=fm)
     broker.create_portfolio('P')
     broker.subscribe_funds_to_portfolio('P', case['equity'])
+    if late:
+        fm.commission_pct, fm.tax_pct = fee[1], fee[2]              # the caller's fee model, revised after the broker has it
     return broker, book, t
+
+
+def hash_of(case):
+    return int(sum(ord(ch) for ch in json.dumps(case['prices'], sort_keys=True)))
+
+
+def scribble(res):
+    """What the caller does with a target portfolio it was given is its own business: overwrite every entry."""
+    try:
+        for a in list(res):
+            if isinstance(res[a], dict):
+                res[a]['quantity'] = 250
+                res[a]['scribbled'] = True
+    except Exception:
+        pass
 
 
 def frate(fee):
@@ -148,6 +172,7 @@ def check_c10(case, acc):
     if inv == 'nan_price':
         raise Violation('C10', 'nan-price-accepted', 'a NaN price was accepted: %s' % (res,), {})
     verify_c10(case, E, res, acc)
+    scribble(res)
     # the same sizer object is asked again: same assets, other weights (and prices), sometimes through the SAME dict
     # object changed in place - nothing may be remembered from the previous call
     for step in case.get('more', []):
@@ -168,6 +193,7 @@ def check_c10(case, acc):
         except Violation as v:
             raise Violation('C10', 'repeat-call/' + v.key, 'on a LATER call of the same sizer object%s: %s'
                             % (' (same dict changed in place)' if step.get('in_place') else '', v.msg), {})
+        scribble(res)
         acc.count('C10:repeat_calls_checked')
 
 
@@ -250,6 +276,7 @@ def check_c11(case, acc):
     if inv == 'nan_price':
         raise Violation('C11', 'nan-price-accepted', 'a NaN price was accepted: %s' % (res,), {})
     verify_c11(case, E, res, acc)
+    scribble(res)
     for step in case.get('more', []):
         if step.get('in_place'):
             w.clear()
@@ -268,6 +295,7 @@ def check_c11(case, acc):
         except Violation as v:
             raise Violation('C11', 'repeat-call/' + v.key, 'on a LATER call of the same sizer object%s: %s'
                             % (' (same dict changed in place)' if step.get('in_place') else '', v.msg), {})
+        scribble(res)
         acc.count('C11:repeat_calls_checked')
 
 
